@@ -4,7 +4,7 @@
    elements; [res] is Ok / Panic kind / OutOfFuel (Slice/SliceUtilModel.v, SliceUtilSpec.v). *)
 From Coq Require Import ZArith List Bool Permutation.
 Import ListNotations.
-From Mds Require Import Slice.SliceUtilModel Slice.SliceUtilSpec Slice.SliceUtilProofs.
+From Mds Require Import Slice.SliceUtilModel Slice.SliceUtilSpec Slice.SliceUtilProofs Slice.SliceUtilProofsRotate.
 Local Open Scope Z_scope.
 
 (* At: for -len <= i < len the element at i, negative i counting from the end; no panic. *)
@@ -56,4 +56,43 @@ Theorem C17_stripe : forall (T : Type) (vs : list (list T)) (i : Z),
 Proof. exact @stripe_correct. Qed.
 Print Assumptions C17_stripe.
 Example C17_stripe_ex : stripe [[1; 2; 3]; [4]; []; [5; 6]] 1 = Ok [2; 6].
+Proof. reflexivity. Qed.
+
+(* Rotate(ss, k) for -n <= k <= n (the faithful gcd / cycle-chasing loop model): no panic, no fuel
+   exhaustion, and the element at index i ends at index (i + k) mod n, for every i. *)
+Theorem C17_rotate : forall (T : Type) (l : list T) (k : Z),
+  - zlen l <= k <= zlen l ->
+  exists l', rotate_impl l k = Ok l' /\ length l' = length l /\
+    forall i, 0 <= i < zlen l -> nth_error l' (Z.to_nat ((i + k) mod zlen l)) = nth_error l (Z.to_nat i).
+Proof. exact @rotate_impl_moves. Qed.
+Print Assumptions C17_rotate.
+Example C17_rotate_ex : rotate_impl [1; 2; 3; 4; 5; 6] 4 = Ok [3; 4; 5; 6; 1; 2] /\
+                        rotate_impl [1; 2; 3; 4; 5; 6] (-1) = Ok [2; 3; 4; 5; 6; 1].
+Proof. split; reflexivity. Qed.
+
+(* The same as an equation with the list-level rotation (what queue.Queue's model imports). *)
+Theorem C17_rotate_list : forall (T : Type) (l : list T) (k : Z),
+  - zlen l <= k <= zlen l -> rotate_impl l k = Ok (rotate_list l k).
+Proof. exact @rotate_impl_spec. Qed.
+Print Assumptions C17_rotate_list.
+Example C17_rotate_list_ex : rotate_list [1; 2; 3; 4] 1 = [4; 1; 2; 3] /\ rotate_list [1; 2; 3; 4] (-1) = [2; 3; 4; 1].
+Proof. split; reflexivity. Qed.
+
+(* k outside [-n, n]: the documented panic. *)
+Theorem C17_rotate_panics : forall (T : Type) (l : list T) (k : Z),
+  k < - zlen l \/ zlen l < k -> rotate_impl l k = Panic PDocOffset.
+Proof. exact @rotate_impl_out_of_range. Qed.
+Print Assumptions C17_rotate_panics.
+Example C17_rotate_panics_ex : rotate_impl [1; 2; 3] 4 = Panic PDocOffset /\ rotate_impl [1; 2; 3] (-4) = Panic PDocOffset.
+Proof. split; reflexivity. Qed.
+
+(* On a base array: the slice's elements are rotated, every other element of the base is unchanged. *)
+Theorem C17_rotate_view : forall (T : Type) (b : list T) (v : view) (k : Z),
+  valid_view b v -> - vlen v <= k <= vlen v ->
+  exists b', rotate b v k = Ok b' /\ window b' v = rotate_list (window b v) k /\
+    firstn (Z.to_nat (voff v)) b' = firstn (Z.to_nat (voff v)) b /\
+    skipn (Z.to_nat (voff v + vlen v)) b' = skipn (Z.to_nat (voff v + vlen v)) b.
+Proof. exact @rotate_view. Qed.
+Print Assumptions C17_rotate_view.
+Example C17_rotate_view_ex : rotate [9; 1; 2; 3; 8; 7] (mkView 1 3 4) 1 = Ok [9; 3; 1; 2; 8; 7].
 Proof. reflexivity. Qed.
